@@ -166,7 +166,7 @@ def cbmc_cmd(ctx, q, prep):
             '--trace', '--json-ui', '--verbosity', '8']
     if q.unwindset and not (q.loops or q.hunwind):
         cmd += ['--unwindset', ','.join('%s:%d' % kv for kv in q.unwindset.items())]
-    if q.object_bits: cmd += ['--object-bits', str(q.object_bits)]
+    if q.object_bits: cmd += ['--object-bits', str(q.object_bits), '-D', 'VP_OBJECT_BITS=%d' % q.object_bits]
     if q.solver == 'cadical': cmd += ['--sat-solver', 'cadical']
     elif q.solver == 'kissat': cmd += ['--external-sat-solver', 'kissat']
     cmd += list(q.cbmc_extra)
